@@ -21,6 +21,7 @@ import OFV.Proofs.C08Conv
 import OFV.Proofs.C08Rot
 import OFV.Proofs.C08Iter
 import OFV.Proofs.C08Fock
+import OFV.Proofs.C08Car
 
 namespace OFV.C08
 open OFV OFV.Spec OFV.Spec.C08 OFV.Model.C08 OFV.C08P
@@ -164,6 +165,31 @@ theorem basis_change_sound_fock (n : Nat) (R : Mat) (key : Key) (T : Tensor)
     Proofs.C03.fockInterp.evalOp (denoteTensor key (basisChange n R key T))
       = ((indices n key.length).map fun a => (tget a T).getD 0 • rotWord n R a key).sum :=
   basisChange_fock n R key T hT hkey
+
+/-- **anticommutators of the rotated ladder operators** (any `R`): `{ã_b, ã†_a} = (R R†)_{ba}`,
+`{ã_a, ã_b} = {ã†_a, ã†_b} = 0`. -/
+theorem rotated_ladder_anticommutators (n : Nat) (R : Mat) (a b : Nat) :
+    (rotLadder n R b 0 * rotLadder n R a 1 + rotLadder n R a 1 * rotLadder n R b 0
+      = sumN n (fun P => matGet R b P * matGet (conjMat R) a P) • (1 : FEnd)) ∧
+    (∀ x, rotLadder n R b x * rotLadder n R a x + rotLadder n R a x * rotLadder n R b x = 0) :=
+  ⟨rot_car_mixed_aux n R a b, fun x => rot_car_same_aux n R a b x⟩
+
+/-- **for a unitary `R` the rotated ladder operators satisfy the CAR again**, so that by
+`basis_change_sound_fock` `rotate_basis` is the substitution `a ↦ ã` by a family with the same
+algebraic relations (a Bogoliubov transformation). -/
+theorem rotated_ladder_car_unitary (n : Nat) (R : Mat)
+    (hU : ∀ a b, a < n → b < n →
+      sumN n (fun P => matGet R b P * matGet (conjMat R) a P) = if a = b then 1 else 0)
+    (a b : Nat) (ha : a < n) (hb : b < n) :
+    rotLadder n R b 0 * rotLadder n R a 1 + rotLadder n R a 1 * rotLadder n R b 0
+      = if a = b then (1 : FEnd) else 0 := by
+  rw [rot_car_mixed_aux, hU a b ha hb]
+  split <;> simp
+
+/-- non-vacuity: the complex permutation `[[0, i], [1, 0]]` is unitary in the sense of the hypothesis -/
+example : ∀ a < 2, ∀ b < 2,
+    sumN 2 (fun P => matGet [[0, GQ.I], [1, 0]] b P * matGet (conjMat [[0, GQ.I], [1, 0]]) a P)
+      = if a = b then 1 else 0 := by decide +kernel
 
 /-- the rotated array has the shape of the input -/
 theorem basis_change_shape (n : Nat) (R : Mat) (key : Key) (T : Tensor)
